@@ -299,6 +299,9 @@ void Session::init(const Config& cfg) {
   if (cfg.lib_sndbuf) nc->set_send_buffer_size(cfg.lib_sndbuf);
   if (cfg.lib_rcvbuf) nc->set_receive_buffer_size(cfg.lib_rcvbuf);
   nc->set_bind_inet_address_str("127.0.0.1");
+  if (cfg.enc_handshake_mode >= 0 || cfg.enc_stream_mode >= 0)
+    nc->set_encryption_modes((torrent::encryption_mode)(cfg.enc_handshake_mode >= 0 ? cfg.enc_handshake_mode : 1),
+                             (torrent::encryption_mode)(cfg.enc_stream_mode >= 0 ? cfg.enc_stream_mode : 1));
   // NetworkConfig setters schedule a delayed (200 ms) change notification whose subscriber
   // (ThreadMain) restarts the listener; with the network "not initialized" that restart only
   // CLOSES it. Let the notification fire now, before the listener exists.
